@@ -43,11 +43,16 @@ Definition hits (bk : buckets_kind) (w : window) : list N :=
   map (fun t => let '(salt, (i, j, k)) := t in spec_bucket bk salt (wnth w i) (wnth w j) (wnth w k)) spec_triplets.
 
 (* bucket k = number of (window, triplet) pairs mapped to k, as a 32-bit counter *)
-Definition spec_count (bk : buckets_kind) (d : list N) (k : N) : N :=
-  N.of_nat (count_occ N.eq_dec (flat_map (hits bk) (windows d)) k) mod 4294967296.
+Definition all_hits (bk : buckets_kind) (d : list N) : list N := flat_map (hits bk) (windows d).
 
+Definition count_in (hs : list N) (k : N) : N := N.of_nat (count_occ N.eq_dec hs k) mod 4294967296.
+
+Definition spec_count (bk : buckets_kind) (d : list N) (k : N) : N := count_in (all_hits bk d) k.
+
+(* (the hit list is let-bound only so that evaluation computes it once) *)
 Definition spec_counts (bk : buckets_kind) (d : list N) : list N :=
-  map (fun k => spec_count bk d (N.of_nat k)) (seq 0 (N.to_nat (spec_nb bk))).
+  let hs := all_hits bk d in
+  map (fun k => count_in hs (N.of_nat k)) (seq 0 (N.to_nat (spec_nb bk))).
 
 (* checksum: left fold of the chained Pearson step over (current, previous) byte of each window *)
 Definition spec_cks_step (bk : buckets_kind) (cks : list N) (w : window) : list N :=
